@@ -597,19 +597,37 @@ PROPS = {
         assumptions=["uom quantities are the identity on SI base values", "HashMap::into_iter order is arbitrary (model parameter)"],
     ),
     "C09": dict(
-        lean_modules=["AlphaG.Props.C09"],
+        lean_modules=["AlphaG.Props.C09", "AlphaG.Props.C09b", "AlphaG.Props.C09bStages", "AlphaG.Props.C09bExamples",
+                      "AlphaG.Lemmas.VertexPipeline", "AlphaG.Lemmas.VertexPipelineAval", "AlphaG.Lemmas.VertexPipelineCluster"],
         required_theorems=["AlphaG.C09." + t for t in [
-            "buildEvent_total", "timestamp_total", "avalanches_wire_range", "avalanches_column_lt"]],
-        harness=[("c09", ["dev", "release"])],
+            "buildEvent_total", "timestamp_total", "avalanches_wire_range", "avalanches_column_lt"]]
+            + ["AlphaG.VertexPipeline." + t for t in [
+                "vertex_panic_stage", "vertex_panic_sites", "vertex_panic_site_mem", "vertex_total_of_no_nan",
+                "vertex_result_spec", "run_panic", "tablesAt_panic", "stageClusters_panic", "stageVertex_panic",
+                "Examples.xLawsAll", "Examples.evNaN_panics", "Examples.evOne_total"]],
+        harness=[("c09", ["dev", "release"]), ("c09b", ["dev"])],
         disagreement_is_failing_input=False,
+        disagreement_failing_modules=["c09b"],
         oracle_failing_regex=r"panic",
         level_text="Lean theorem: building a main event never panics, for every bank list, run number and HashMap order "
                    "(buildEvent_total: every unwrap/index site of try_from_banks incl. the i32 calibration arithmetic and slot "
                    "indices), composing the totality theorems of all decoders (C01); timestamp is total; the non-float panic "
                    "sites of avalanches() that are index arithmetic are proved dead (8-wire ranges with first <= 248, column "
-                   "index < 32). The float-dependent sites are inventoried in Props/C09.lean.",
-        level_note="Partial: that no NaN/infinity reaches the partial_cmp().unwrap() sorts, the Cholesky solve, argmin's "
-                   "Nelder-Mead or the NaN asserts of the cost functions in f64 cannot be proved here (no IEEE-754 semantics); "
+                   "index < 32). MainEvent::vertex() is modelled as the composition of its five stage models (avalanches, drift lookup, "
+                   "Hough clustering, Nelder-Mead track fit, vertex fit with the remainder loop): its panics are inventoried "
+                   "exhaustively over any carrier (vertex_panic_sites: 14 sites, each with its trigger - a failing Cholesky "
+                   "pivot, a NaN z in the drift lookup, a point that is not == itself, < 3 points / NaN radius deviation / NaN "
+                   "squared distance in the track fit, NaN keys in the beamline sort or max_by, the vertex cost NaN assert, a "
+                   "track that is not == itself), it is total when no trigger occurs (vertex_total_of_no_nan), the Cholesky "
+                   "site is dead over any ordered field (pivot_never_fails_exact), and a returned vertex is characterised "
+                   "(vertex_result_spec: best evaluated point of the vertex fit over >= 2 filtered tracks, each fitted from a "
+                   "cluster of >= 13 space points, each from an avalanche of the event).",
+        level_note="Partial: that f64 satisfies the named carrier laws and that no NaN or failed pivot arises on in-domain "
+                   "signals - i.e. that none of the 14 inventoried triggers occurs in f64 - cannot be proved here (no IEEE-754 "
+                   "semantics) and is sampled. Module c09b compares the real vertex() with the composed model: bit-exact on "
+                   "every event downstream of the wire deconvolution (request vertexx); end to end the bits are not reproducible "
+                   "by a model with a different Cholesky rounding, because ~1e-13 residual 'dust' inputs pass the > 0.0 test of "
+                   "the matching and become space points (observation recorded in DESIGN 13.3, not a violation of C09); "
                    "avalanches() and vertex() are run under catch_unwind in dev and release builds on random, extreme-valued "
                    "(i16::MIN/MAX samples, requested 0/1/511, all 79 channels, lengths around the delay) and simulated track "
                    "events — sampling, labelled as such. Repaired defect F2 is reported again if it returns.",
@@ -619,7 +637,9 @@ PROPS = {
         rule="cases: random bank names x bytes, extreme-valued CRC-valid events at every run class, duplicated/missing/"
              "foreign banks, simulated track events; each runs try_from_banks, timestamp, avalanches, vertex; distinct by "
              "request line",
-        assumptions=["argmin, faer and libm are not modelled"],
+        assumptions=["faer's Cholesky agrees with the model's textbook one only to rounding (tied to 1e-12 by c13b); dust avalanches "
+                     "make vertex() sensitive to that, so end-to-end vertex bits are compared only when the avalanche lists agree",
+                     "libm functions of Lean's Float are the C library's, as Rust's"],
     ),
     "C11": dict(
         lean_modules=["AlphaG.Props.C11"],
